@@ -24,10 +24,7 @@ impl Compiler {
                 || Self::is_builtin(name)
                 || self.known_globals.contains(name)
             {
-                let idx = self.next_global_index;
-                self.global_indices.insert(name.to_string(), idx);
-                self.next_global_index += 1;
-                idx
+                self.alloc_global_index(name)?
             } else {
                 return Ok(false);
             };
